@@ -70,4 +70,10 @@ def resolve (c : Cli) : Option ServerArgs :=
 def httpCfgOf (a : ServerArgs) : HttpCfg :=
   { cfg := ⟨a.snapshotDays, a.snapshotVersions⟩, allow := a.allow }
 
+/-- `main` (bin/taskchampion-sync-server.rs): one `HttpServer::bind(address)?` per listen address, in order; the `?`
+    makes start-up fail unless EVERY given address can be bound. `busy` = addresses that cannot be bound (held by
+    another process, not assigned, privileged). `some l` = the server runs, listening on exactly `l`. -/
+def startup (a : ServerArgs) (busy : List String) : Option (List String) :=
+  if a.listen.any (fun x => busy.contains x) then none else some a.listen
+
 end Tcs
